@@ -283,7 +283,7 @@ class OperatorRun:
             else:
                 hints = [inst] + hints
         for hi, h in enumerate(hints):
-            self.add_ob(eng, f'{name}.hint{hi}', hyps, h, path, kind, {'lemmas': opts.get('hint_lemmas')})
+            self.add_ob(eng, f'{name}.hint{hi}', hyps, h, path, kind, {'lemmas': opts.get('hint_lemmas'), 'lemma_instances': opts.get('hint_lemma_instances')})
         if hints:
             hyps = list(hyps) + hints
         if z3.is_expr(goal) and is_true(simplify(goal)):
@@ -292,6 +292,7 @@ class OperatorRun:
             self.report.obligations.append(ob); return
         ob = Obligation(name, list(eng.base_hyps) + list(hyps), goal, kind, name, path=path)
         ob.extra['lemmas'] = opts.get('lemmas')
+        ob.extra['lemma_instances'] = opts.get('lemma_instances')
         ob.extra['with_lemmas'] = True
         self.pending_lemma_obs.append(ob)
         self.report.obligations.append(ob)
@@ -405,6 +406,10 @@ class OperatorRun:
             if names is None:
                 names = list(L)
             ob.hyps = ob.hyps + [L[n] for n in names if n in L]
+            # forall-elimination of contract lemmas at explicit terms (no solver involved)
+            for (ln, terms) in (ob.extra.get('lemma_instances') or []):
+                if ln in L and z3.is_quantifier(L[ln]):
+                    ob.hyps.append(z3.substitute_vars(L[ln].body(), *reversed(terms)))
         self.pending_lemma_obs = []
 
     def item_value(self, ctx):
